@@ -84,7 +84,7 @@ Ltac xstep :=
   | |- context [exec1 ?a ?r ?c ?e ?s] =>
     let R := fresh "R" in let HR := fresh "HR" in
     remember r as R eqn:HR;
-    let v := eval lazy in (exec1 a R c e s) in change (exec1 a R c e s) with v;
+    let v := eval lazy -[write_back] in (exec1 a R c e s) in change (exec1 a R c e s) with v;
     rewrite HR; clear HR R
   end; cbv beta iota.
 
@@ -133,6 +133,16 @@ Ltac step_tac scr a Ha n K :=
     first [ eexists; split; [|lazy; reflexivity]; reflexivity
           | exists (repeat MNone K); split; [reflexivity|vm_compute; reflexivity] ].
 
+Definition opt_coll (o : option nat) : mval := match o with Some c => MArgV (ACollator c) | None => MNone end.
+Definition env_set (s : slots) (scr : list mval) : menv :=
+  [MArgV ANotation; opt_slice (s_values s); opt_seq (s_seq s); src_of s; opt_coll (s_coll s)] ++ scr.
+
+(* a list of scratch locals of a length that is computed from the regenerated table *)
+Ltac explode_dyn scr L :=
+  vm_compute in L;
+  repeat (destruct scr as [|?x scr]; [discriminate L|]; cbn [length] in L; apply eq_add_S in L);
+  destruct scr; [|discriminate L].
+
 (* values of the class constructors the source branches start from (class_ctor is opaque in the late files) *)
 Lemma class_make_list : forall t, class_ctor FList t CMake = Ret (OLst []). Proof. reflexivity. Qed.
 Lemma class_make_set : forall t, class_ctor FSet t CMake = Ret (OSet 0 []). Proof. reflexivity. Qed.
@@ -157,10 +167,12 @@ Ltac fin2 :=
 Ltac to_loop := repeat first [ timeout 20 xstep | progress class_vals | progress cbn [set_add_all out_map out_bind] | progress cbv beta iota ].
 
 
-Ltac rhs_open :=
+(* the model's side opened up to the assertion on the parsed collection (parsed_items / parsed_pairs kept folded) *)
+Ltac rhs_open_keep :=
   unfold finish_set, finish_list, finish_array, finish_pairs, source_values, source_pairs, array_from_source;
-  cbn [s_size s_has_size s_values s_seq s_text s_parsed s_coll s_assocs s_map s_aseq has_text nonempty parsed_items parsed_pairs get_list];
+  cbn [s_size s_has_size s_values s_seq s_text s_parsed s_coll s_assocs s_map s_aseq has_text nonempty get_list];
   class_vals.
+Ltac rhs_open := rhs_open_keep; cbn [parsed_items parsed_pairs]; class_vals.
 Ltac kill_stuck :=
   change (ranker 0%nat) with rk_default in *;
   repeat (class_vals;
@@ -170,7 +182,7 @@ Ltac kill_stuck :=
           | |- context [array_fill ?a ?b ?c ?d] => destruct (array_fill a b c d)
           | |- context [set_add_all ?z ?r ?a ?l] => destruct (set_add_all z r a l)
           end).
-Ltac after_loop := timeout 20 rhs_open; timeout 30 (lazy; class_vals; lazy); timeout 20 kill_stuck; timeout 30 fin2.
+Ltac after_loop := timeout 30 rhs_open; timeout 30 kill_stuck; timeout 60 (lazy; class_vals; lazy); timeout 30 kill_stuck; timeout 60 fin2.
 
 Ltac leaf := cbn [plus]; timeout 60 to_loop; after_loop.
 Ltac seq_cases2 pv :=
